@@ -28,6 +28,9 @@ ASSUMPTIONS = [
 USES_RELATIVE = set(uses_relative)
 SEG_ALPHA = [".", "..", "", "a", "%2E"]
 
+# parts also run by 4 threads at once in one process (runner adds the jobs; see yv/ctx.py Ctx.threaded)
+SHARED = [("random", {"n": 4000}, {"n": 80000})]
+
 
 def plan(tier, seed):
     thorough = tier == "thorough"
@@ -105,7 +108,9 @@ def check_join(ctx, base_s, ref_s, part, sig_extra=(), benc=False, renc=False):
 # the last four take an authority (urllib's uses_netloc) but do NOT support relative resolution (not in uses_relative)
 BASE_SCHEMES = ["http", "https", "ftp", "file", "ws", "git", "rsync", "telnet", "git+ssh"]
 BASE_AUTH = ["h", "u:p@h:81", "[::1]", None]
-BASE_PATHS = ["", "/", "/a", "/a/", "/a/b", "/a/b/", "/a%20b/c", "/a%2Fb/c%3Fd", "/a%25/%23b/", "/a/b/c/d;p"]
+BASE_PATHS = ["", "/", "/a", "/a/", "/a/b", "/a/b/", "/a%20b/c", "/a%2Fb/c%3Fd", "/a%25/%23b/", "/a/b/c/d;p",
+              # empty segments: in front of the last segment, leading, trailing
+              "/b//d", "//d", "/a//", "/web/https://x.y"]
 BASE_QF = [("", ""), ("?x=1", ""), ("", "#bf"), ("?x=1", "#bf")]
 
 
